@@ -327,3 +327,59 @@ def live(case, ctx):
             ctx.check(rets[-1] != 1, "receiver never reported the manipulated stream", "live/no-error/%s/%s" % (proto, fault))
     finally:
         s.finish()
+
+
+far_case = st.fixed_dictionaries({"proto": st.sampled_from(net.PROTOS), "dir": st.sampled_from(["c2s", "s2c"]), "seed": st.integers(0, 1 << 20),
+                                  "j": st.integers(0, 20), "dist": st.sampled_from([256, 256, 256, 255, 257, 512]), "mode": st.sampled_from(["substitute", "insert"])})
+
+
+@P.sub("replay_far", far_case, quick=36, thorough=1500, chunk=3)
+def replay_far(case, ctx):
+    """live connection with several hundred records: record j replayed in the place of record j + 256 (+-1, x2) is not accepted -
+    sequence numbers are compared in full, not modulo a byte"""
+    proto, d = case["proto"], case["dir"]
+    shim().freeze_time(pki.T0)
+    j, dist = case["j"], case["dist"]
+    at = j + dist
+    nmsg = at + 2
+    state = {"armed": False, "seen": 0, "saved": None, "hit": 0}
+
+    def hook(rec):
+        if not state["armed"] or rec.dir != d:
+            return [rec.raw]
+        i = state["seen"]; state["seen"] += 1
+        if i == j:
+            state["saved"] = rec.raw
+        if i == at and state["saved"] is not None:
+            state["hit"] = 1
+            return [state["saved"]] if case["mode"] == "substitute" else [state["saved"], rec.raw]
+        return [rec.raw]
+    s = net.Session(ctx.variant, proto, _pki(proto), hook=hook, seed=case["seed"], quiet_ms=None)
+    try:
+        rc, rs = s.start()
+        hc, hs = s.handshake(timeout=30.0)
+        if hc[0] == "timeout" or hs[0] == "timeout":
+            ctx.note("inconclusive-timeout"); return
+        ctx.check(hc[1] == 1 and hs[1] == 1, "handshake failed %s %s" % (hc, hs), "live/handshake")
+        snd, rcv = (s.client, s.server) if d == "c2s" else (s.server, s.client)
+        state["armed"] = True
+        msgs = [_bytes("far%d/%d" % (case["seed"], i), 6) for i in range(nmsg)]
+        r = snd.do("send_many", b"".join(msgs), [6], timeout=120.0)
+        if r[0] == "timeout":
+            ctx.note("inconclusive-timeout"); return
+        ctx.check(r[1] == 1 and r[2] == 6 * nmsg, "sending %d small records failed: %r" % (nmsg, r), "live/send")
+        snd.do("close")
+        legit = 6 * at
+        r = rcv.do("recv_n", 6 * nmsg, [4096], timeout=120.0)
+        if r[0] == "timeout":
+            ctx.note("inconclusive-timeout"); return
+        bad, got = r[1], r[2]
+        ctx.case(nontrivial=bool(state["hit"]), classes=[proto, d, "dist=%d" % dist, case["mode"]], ident=case, sample=case)
+        sent = b"".join(msgs)
+        ctx.check(sent.startswith(got), "%s receiver accepted the record #%d replayed in place #%d (%d records later): %d bytes accepted, they differ from what was sent at byte %s" %
+                  (proto, j, at, dist, len(got), next((i for i in range(min(len(got), len(sent))) if got[i] != sent[i]), None)), "far/not-prefix/%s/dist%d" % (proto, dist))
+        if state["hit"]:
+            ctx.check(len(got) <= legit and bad is not None, "%s receiver kept accepting data after record #%d was replayed at #%d: %d bytes accepted, at most %d are legitimate" %
+                      (proto, j, at, len(got), legit), "far/accepted-after/%s/dist%d" % (proto, dist))
+    finally:
+        s.finish()
